@@ -100,6 +100,14 @@ macro fnCount(L)  = ifptr(L, "*ast.FootnoteList").Count
 macro fnRange(L)  = forall i int {kid(L, i)} :: (0 <= i && i < klen(L)) ==> (isFn(kid(L, i)) && (fnIndex(kid(L, i)) < 0 || (1 <= fnIndex(kid(L, i)) && fnIndex(kid(L, i)) <= fnCount(L))))
 macro fnInj(L)    = forall i int, j int {kid(L, i), kid(L, j)} :: (0 <= i && i < j && j < klen(L) && fnIndex(kid(L, i)) >= 1) ==> fnIndex(kid(L, i)) != fnIndex(kid(L, j))
 macro fnListOK(L) = (typeis(L, "*ast.FootnoteList") && ifptr(L, "*ast.FootnoteList") != nil && fnCount(L) >= 0 && fnRange(L) && fnInj(L))
+// Close of a footnote definition: the definition moves into THE footnote list of the document (created on first use and
+// hung into the tree where the first definition stood); the list then satisfies what Parse and Transform assume of it
+func (*footnoteBlockParser).Close
+  uses nodeModel
+  requires WF() && node != nil && pc != nil && isFn(node) && fnIndex(node) < 0 && par(node) != nil && !isFn(par(node)) && par(node) != fnList()
+  requires [listOK] fnList() != nil ==> (fnListOK(fnList()) && par(fnList()) != nil && !isFn(par(fnList())))
+  ensures [list] fnList() != nil && fnListOK(fnList()) && par(fnList()) != nil && !isFn(par(fnList()))
+  ensures [joined] par(node) == fnList()
 func (*footnoteParser).Parse
   uses nodeModel
   requires WF() && parent != nil && block != nil && pc != nil
